@@ -52,7 +52,7 @@ class C08(Prop):
                 if not (ii or io or ib):
                     continue
                 exp = sorted((internal if ii else []) + (outbound if io else []) + (inbound if ib else []))
-                got = case.call("get_webentity_pagelinks", t.get_webentity_pagelinks, w, list(order),
+                got = case.call("get_webentity_pagelinks", t.get_webentity_pagelinks, w, ob.args(order),
                                 include_inbound=ib, include_internal=ii, include_outbound=io)
                 got = sorted((bytes(a), bytes(b), c) for a, b, c in got)
                 if got != exp:
@@ -60,8 +60,8 @@ class C08(Prop):
                              % (w, ii, io, ib, [x for x in exp if x not in got][:3], [x for x in got if x not in exp][:3]), case)
             eo = set(R[d] for s, d, x in links if R[s] == w)
             ei = set(R[s] for s, d, x in links if R[d] == w)
-            go = case.call("get_webentity_outlinks", t.get_webentity_outlinks, w, list(order))
-            gi = case.call("get_webentity_inlinks", t.get_webentity_inlinks, w, list(order))
+            go = case.call("get_webentity_outlinks", t.get_webentity_outlinks, w, ob.args(order))
+            gi = case.call("get_webentity_inlinks", t.get_webentity_inlinks, w, ob.args(order))
             if set(go) != eo:
                 ctx.fail("cited-webentities", "get_webentity_outlinks(%r) = %r, expected %r" % (w, go, eo), case)
             if set(gi) != ei:
@@ -76,5 +76,18 @@ class C08(Prop):
     def nontrivial(self, case):
         return "webentity-with-internal+outbound+inbound" in case.flags
 
+
+    # scale probe (tv/scale.py): 320 webentities (ids beyond 256), 1280+ pages, judged once by this property's oracle
+    def extra_checks(self, ctx, tier, seed, shard, nshards):
+        if shard != 2 % nshards:
+            return
+        from ..scale import build
+        case = build(self, ctx, 320 if tier == "quick" else 700)
+        try:
+            self.run_probe(case, ("probe", "webentity-links", []))
+            ctx.extra["scale_probe_pages"] += len(case.led.pages)
+            ctx.extra["scale_probe_webentities"] += len(case.led.webentities())
+        finally:
+            case.abort()
 
 PROP = C08()
